@@ -2,15 +2,32 @@
 SPEC = {
     "bins": [
         {"name": "c09", "pkg": "./zz_verif/c09", "run": ".", "shards": {"quick": 1, "thorough": 16}},
+        {"name": "c09-tkn", "pkg": "./abe/cpabe/tkn20/internal/tkn", "run": "^TestVerifC09", "whitebox": True, "shards": {"quick": 1, "thorough": 4}},
         {"name": "c09-ed25519", "pkg": "./sign/ed25519", "run": "^TestVerifC09", "whitebox": True, "shards": {"quick": 1, "thorough": 4}},
     ],
-    "rule": "TODO",
-    "assumptions": COMMON_ASSUME,
+    "rule": "case = (format, byte string of one of the format's exact encoded lengths) drawn by rapid per format from "
+            "{library-produced encoding; one bit flipped (biased to flag/sign/top octets); flag/prefix bits rewritten; a coordinate := value in [p, 2^bits) "
+            "(p, p+small, (valid coordinate)+p when it fits, uniform); curve point outside the r-torsion obtained by solving the curve equation with the reference "
+            "big-int code (BLS12-381 G1/G2, FourQ) and its pure cofactor component r*P / N*P; point of another curve y^2=x^3+b' (twist / invalid curve); "
+            "infinity with stray flag or payload bits; unused high bits set; non-canonical sign of x=0; RFC 9496 bad encodings; ML-KEM coefficient in [q,4096); uniformly random}. "
+            "Formats: bls12381 G1/G2 SetBytes (48/96, 96/192 bytes), sign/bls public keys (UnmarshalBinary+Validate) and signatures (through Verify), "
+            "tkn20 matrixG1/matrixG2 (white-box), goldilocks.FromBytes / Point.UnmarshalBinary (57), fourq.Point.Unmarshal and curve4q.Shared (32), "
+            "Ed25519 public keys (white-box pointR1.FromBytes incl. all 38 encodings with y>=p; black-box Verify with forged signatures under low-order keys), "
+            "group.P256/P384/P521 and ristretto255 elements, OPRF public keys of the four suites, ML-KEM-512/768/1024 + X25519MLKEM768 + X-Wing encapsulation keys. "
+            "non-trivial = the input is not an unmodified library encoding; distinct by FNV-64 of (sub-check, input bytes[, key seed, message])",
+    "assumptions": COMMON_ASSUME + [
+        "the reference decoders in zz_verif/ref/decode (math/big only, written from the ZCash serialisation notes, RFC 8032, RFC 9496, SEC 1, FIPS 203 and the FourQ paper) are correct; "
+        "they are validated at start-up against the zkcrypto G1/G2 vector files, the published generator encodings, h*r*P=O for lifted points, RFC 8032 key pairs and base points, "
+        "the RFC 9496 multiples and bad encodings, crypto/elliptic + crypto/ecdh on the NIST curves, N*G=O and 392*N*P=O on FourQ",
+        "FourQ has no official test vectors available offline: its reference is validated by algebraic identities only (generator on curve, N*G=O, #E=392*N on lifted points, sign bit selects -x)",
+        "a panic inside a decoder is counted but not judged here (property C10 owns it)",
+        "inputs longer or shorter than the exact encoded lengths are outside the quantifier (trailing bytes are counted only)",
+    ],
     "budget": {"quick": 900, "thorough": 3600},
 }
 
 MANIFEST = {
-    "technique": "TODO",
-    "text": "TODO",
-    "note": "TODO",
+    "technique": "property-based testing (rapid) with format-aware adversarial generators and differential oracles: every decoder is compared, per input, with an independent big-integer reference decoder (soundness: accept => reference accepts and same-format re-serialisation is byte-identical; completeness on library output); exhaustive enumeration of the 38 Ed25519 encodings with y >= p; white-box overlays for Ed25519 point decoding and tkn20 matrices",
+    "text": "Generated-input search over byte strings of the exact encoded lengths of 14 format families. For each input the circl decoder's verdict and its re-serialisation are compared with a reference decoder written from the specification with math/big (flag rules, field range, curve equation, r-torsion by scalar multiplication with r, canonical sign rules). Inputs concentrate on the complement of the encoder's image: bit flips, non-reduced coordinates, cofactor and invalid-curve points built by solving the curve equation, infinity with stray bits, unused bits, wrong sign of zero. Exploration is the right level: the domain is all 2^(8n) strings per format and the oracle is exact per case; the only finite sub-domain that matters (Ed25519 y in [p,2^255)) is enumerated.",
+    "note": "trusts math/big and the self-tested reference decoders; subgroup membership of accepted inputs is re-derived by a 255-bit scalar multiplication in affine big-integer arithmetic, independent of circl's endomorphism-based checks; 'reference accepts => circl accepts' is only counted; never establishes absence",
 }
